@@ -26,12 +26,12 @@ ASSUMPTIONS = [
     "a call terminates = returns within the shard watchdog; a watchdog firing is inconclusive",
 ]
 SITES = [
-    "multipleOf_float", "multipleOf_int", "number", "integer", "bounds", "uniqueItems", "format_datetime",
+    "object_subschema", "multipleOf_float", "multipleOf_int", "number", "integer", "bounds", "uniqueItems", "format_datetime",
     "format_uuid", "pattern", "propertyNames", "const_enum", "model_keys", "items_deep", "properties_deep",
     "composition_wrapped", "not_wrapped", "dependencies", "contains", "minmax_lengths",
 ]
 REQUIRED_COUNTERS = (
-    ["outcome.ok", "outcome.ValidationError", "parse.ok", "parse.hostile_schemas", "depth.judged", "parse.raw_hostile_titles",
+    ["outcome.ok", "outcome.ValidationError", "parse.ok", "parse.hostile_schemas", "depth.judged", "parse.raw_hostile_titles", "parse.beyond_recursion_budget",
      "value.huge_int", "value.extreme_float", "value.surrogate", "value.nul", "value.long_string"]
     + [f"site.{s}" for s in SITES]
 )
@@ -86,6 +86,15 @@ def classify_value(ctx, value, depth=0):
 
 def site_schema(rng, site):
     """A schema that routes the value into one site (possibly wrapped)."""
+    if site == "object_subschema":
+        # a model class (typed object) as the sub-schema of the keywords that call sub-schemas themselves
+        cls = {"type": "object", "title": "Sub", "required": ["id"], "properties": {"id": {"type": "integer"}},
+               "additionalProperties": rng.choice([True, False])}
+        return rng.choice([
+            {"contains": cls}, {"propertyNames": cls}, {"dependencies": {"a": cls}}, {"not": cls},
+            {"items": cls}, {"additionalProperties": cls}, {"patternProperties": {"^a": cls}},
+            {"items": [cls], "additionalItems": cls},
+        ])
     if site == "multipleOf_float":
         return {"multipleOf": rng.choice([0.5, 0.1, 1e-320, 5e-324, 1e308, 0.01, 2.5, 1.0, 3.3, 1e-5])}
     if site == "multipleOf_int":
@@ -142,6 +151,9 @@ def wrap(rng, schema, how):
 
 
 def value_for_site(rng, site):
+    if site == "object_subschema":
+        member = rng.choice([{"id": 1}, {"id": "x"}, {}, 5, {"id": 1, "zz": 2}, None, [{"id": 1}]])
+        return rng.choice([[5, member], [member], {"a": member, "b": 1}, {"a": 1}, member, [], {}])
     if site in ("multipleOf_float", "multipleOf_int", "number", "integer", "bounds", "contains"):
         roll = rng.random()
         if roll < 0.8:
@@ -384,6 +396,48 @@ def raw_parser_calls(ctx, sut):
                     ctx.witness("parse_escape." + outcome, {"schema": schema, "site": "raw_" + entry},
                                 f"{type(exc).__name__} escaped {entry} on a metaschema-valid schema: {exc!r}"[:400])
         ctx.nontrivial(canon_safe([schema, shape]))
+    # schemas nested far beyond the recursion budget: the parser documents that it converts stack
+    # exhaustion into its not-implemented error, so RecursionError must not escape either entry point
+    for depth in (300, 1500, 3000):
+        for wrap_kind in ("items", "properties", "anyOf", "not", "additionalProperties"):
+            schema = {"type": "string"}
+            for _ in range(depth):
+                if wrap_kind == "items":
+                    schema = {"items": schema}
+                elif wrap_kind == "properties":
+                    schema = {"properties": {"a": schema}}
+                elif wrap_kind == "anyOf":
+                    schema = {"anyOf": [schema]}
+                elif wrap_kind == "not":
+                    schema = {"not": schema}
+                else:
+                    schema = {"additionalProperties": schema}
+            for entry in ("parse_element", "parse"):
+                ctx.evaluation()
+                ctx.count("parse.beyond_recursion_budget")
+                try:
+                    if entry == "parse":
+                        sut.st_parser.parse(schema)
+                    else:
+                        sut.st_parser.parse_element(schema)
+                    ctx.count("parse.ok")
+                except BaseException as exc:  # pylint: disable=broad-except
+                    if isinstance(exc, (KeyboardInterrupt, SystemExit)):
+                        raise
+                    outcome = sut.outcome_class(exc)
+                    ctx.count("parse." + outcome.replace("other:", "other_"))
+                    if outcome not in ("SchemaParseError", "FeatureNotImplementedError"):
+                        ctx.witness("parse_escape." + outcome,
+                                    {"schema": f"<{wrap_kind} nested {depth} deep>", "site": "deep_" + entry,
+                                     "wrap": wrap_kind, "depth": depth},
+                                    f"{type(exc).__name__} escaped {entry} on a schema nested {depth} deep")
+                # the dicts are rewritten in place by the parser: rebuild for the next entry point
+                schema = {"type": "string"}
+                for _ in range(depth):
+                    schema = {"items": schema} if wrap_kind == "items" else (
+                        {"properties": {"a": schema}} if wrap_kind == "properties" else (
+                            {"anyOf": [schema]} if wrap_kind == "anyOf" else (
+                                {"not": schema} if wrap_kind == "not" else {"additionalProperties": schema})))
 
 
 def run_shard(ctx):
@@ -398,6 +452,20 @@ def replay(case, ctx):
     from vlib import sut  # pylint: disable=import-outside-toplevel
 
     schema = case["schema"]
+    if str(case.get("site", "")).startswith("deep_"):
+        schema = {"type": "string"}
+        for _ in range(case["depth"]):
+            kind = case["wrap"]
+            schema = {"items": schema} if kind == "items" else ({"properties": {"a": schema}} if kind == "properties" else (
+                {"anyOf": [schema]} if kind == "anyOf" else ({"not": schema} if kind == "not" else {"additionalProperties": schema})))
+        ctx.evaluation()
+        try:
+            (sut.st_parser.parse if case["site"] == "deep_parse" else sut.st_parser.parse_element)(schema)
+        except BaseException as exc:  # pylint: disable=broad-except
+            outcome = sut.outcome_class(exc)
+            if outcome not in ("SchemaParseError", "FeatureNotImplementedError"):
+                ctx.witness("parse_escape." + outcome, case, repr(exc)[:200])
+        return
     if str(case.get("site", "")).startswith("raw_"):
         import copy as _copy  # pylint: disable=import-outside-toplevel
 
